@@ -121,6 +121,47 @@ func xlateUndoFlow(repo, out string) {
 	upd := undoflowExecutor(fset, exFiles, "mySQLUndoUpdateExecutor", "newMySQLUndoUpdateExecutor")
 	del := undoflowExecutor(fset, exFiles, "mySQLUndoDeleteExecutor", "newMySQLUndoDeleteExecutor")
 
+	// ---- executor.go: the validation read
+	checkLocks, readErrChecked := false, false
+	for _, f := range exFiles {
+		for _, d := range f.Decls {
+			if gd, ok := d.(*ast.GenDecl); ok && gd.Tok == token.CONST {
+				for _, sp := range gd.Specs {
+					vs := sp.(*ast.ValueSpec)
+					for i, n := range vs.Names {
+						if n.Name == "checkSQLTemplate" && i < len(vs.Values) {
+							checkLocks = strings.HasSuffix(strings.TrimSpace(strings.Trim(printNode(fset, vs.Values[i]), "\"`")), "FOR UPDATE")
+						}
+					}
+				}
+			}
+		}
+	}
+	if qc := undoFunc(exFiles, "BaseExecutor", "queryCurrentRecords"); qc != nil {
+		loopSeen := false
+		for _, st := range qc.Body.List {
+			switch x := st.(type) {
+			case *ast.ForStmt:
+				if strings.Contains(printNode(fset, x.Cond), "rows.Next()") {
+					loopSeen = true
+				}
+			case *ast.IfStmt:
+				txt := ""
+				if x.Init != nil {
+					txt = printNode(fset, x.Init)
+				}
+				txt += " " + printNode(fset, x.Cond)
+				if loopSeen && strings.Contains(txt, "rows.Err()") && strings.Contains(txt, "!= nil") {
+					if r, ok := x.Body.List[len(x.Body.List)-1].(*ast.ReturnStmt); ok && len(r.Results) == 2 && printNode(fset, r.Results[1]) != "nil" {
+						readErrChecked = true
+					}
+				}
+			}
+		}
+	} else {
+		fatal(fmt.Errorf("undoflow: BaseExecutor.queryCurrentRecords not found"))
+	}
+
 	// ---- Undo
 	ubFiles := parseDir(fset, filepath.Join(base, "undo", "base"))
 	undo := undoFunc(ubFiles, "BaseUndoLogManager", "Undo")
@@ -275,6 +316,9 @@ func xlateUndoFlow(repo, out string) {
 	tbl("exec_skips_empty", "ExecuteOn returns nil at once when the image it replays has no rows", func(e undoflowExec) bool { return e.skips })
 	tbl("exec_current_by_before", "constructor: BaseExecutor.undoImage is the BeforeImage (true) / the AfterImage (false)", func(e undoflowExec) bool { return e.curBefore })
 	tbl("exec_replays_before", "ExecuteOn replays the rows of the BeforeImage (true) / AfterImage (false)", func(e undoflowExec) bool { return e.replaysBefore })
+	b.WriteString("\n(* undo/executor/executor.go: the validation read is a locking read (.. FOR UPDATE); a result set that breaks off is an error (rows.Err() checked after the loop) *)\n")
+	fmt.Fprintf(&b, "Definition exec_check_locks : bool := %s.\n", undoflowB(checkLocks))
+	fmt.Fprintf(&b, "Definition exec_read_errors_checked : bool := %s.\n", undoflowB(readErrChecked))
 	b.WriteString("\n(* undo/base/undo.go Undo *)\n")
 	fmt.Fprintf(&b, "Definition undo_cleanup_assigns_result : bool := %s.\n", undoflowB(assigns))
 	fmt.Fprintf(&b, "Definition undo_rollback_unless_committed : bool := %s.\n", undoflowB(rollsBack))
